@@ -9,6 +9,12 @@
 (*   rect : [c1, s1] x [c2, s2] in the plane z = c3, boundary run through   *)
 (*          (c1,c2) -> (s1,c2) -> (s1,s2) -> (c1,s2)                        *)
 (*   box  : [c1, s1] x [c2, s2] x [c3, s3]                                  *)
+(*   tri  : the triangle (c1,c2), (c1+s1,c2), (c1,c2+s2) in the plane z = c3,*)
+(*          run through in this order when s3 = 1, in the opposite one when  *)
+(*          s3 = -1 (a parameter domain whose limits depend on each other)   *)
+(*   tet  : the tetrahedron with corner c and edges s1, s2, s3 along x, y, z *)
+(*   shell: the cylindrical shell c1 <= r <= s1, c2 <= z <= s2 about the z   *)
+(*          axis;   ball : the ball of radius s1 about the origin            *)
 (* A value is q + p * pi with q, p rational: [q |-> Rat, p |-> Rat].        *)
 (*                                                                          *)
 (* What the statement of C13 requires of the library's functions is         *)
@@ -51,14 +57,27 @@ AllRegions == [
   rect     |-> Region("rect", T3(0, 0, 0), T3(2, 3, 0)),
   rectH    |-> Region("rect", T3(-1, 1, 2), T3(2, 3, 0)),     \* in the plane z = 2
   box      |-> Region("box", T3(0, 0, 0), T3(1, 2, 3)),
-  boxC     |-> Region("box", T3(-1, 1, -2), T3(2, 3, -1))
+  boxC     |-> Region("box", T3(-1, 1, -2), T3(2, 3, -1)),
+  tri      |-> Region("tri", T3(0, 0, 0), T3(1, 1, 1)),
+  triC     |-> Region("tri", T3(1, -1, 0), T3(2, 3, 1)),
+  triH     |-> Region("tri", T3(-1, 0, 1), T3(2, 1, 1)),       \* in the plane z = 1
+  tet      |-> Region("tet", T3(0, 0, 0), T3(1, 2, 3)),
+  tetC     |-> Region("tet", T3(1, -1, 1), T3(2, 1, 2)),
+  shell    |-> Region("shell", T3(1, 0, 0), T3(2, 5, 0)),
+  shellC   |-> Region("shell", T3(1, -1, 0), T3(3, 1, 0)),
+  ball1    |-> Region("ball", T3(0, 0, 0), T3(1, 0, 0)),
+  ball2    |-> Region("ball", T3(0, 0, 0), T3(2, 0, 0))
 ]
 RegionsAll   == {AllRegions[n] : n \in DOMAIN AllRegions}
-RegionsQuick == {AllRegions[n] : n \in {"circle2", "ellipseC", "circleH", "rect", "rectH", "boxC"}}
+RegionsQuick == {AllRegions[n] : n \in {"circle2", "ellipseC", "circleH", "rect", "rectH", "boxC",
+                                        "triC", "triH", "tetC", "shell", "ball2"}}
 
 \* the same point set with the opposite orientation
-Rev(r) == IF r.k = "ell" THEN [r EXCEPT !.s = <<r.s[1], RNeg(r.s[2]), r.s[3]>>]
-          ELSE [r EXCEPT !.c = <<r.s[1], r.c[2], r.c[3]>>, !.s = <<r.c[1], r.s[2], r.s[3]>>]
+Rev(r) == CASE r.k = "ell" -> [r EXCEPT !.s = <<r.s[1], RNeg(r.s[2]), r.s[3]>>]
+            [] r.k = "tri" -> [r EXCEPT !.s = <<r.s[1], r.s[2], RNeg(r.s[3])>>]
+            [] r.k \in {"rect", "box"} -> [r EXCEPT !.c = <<r.s[1], r.c[2], r.c[3]>>, !.s = <<r.c[1], r.s[2], r.s[3]>>]
+            [] OTHER -> r                      \* tet, shell, ball: outward normals only
+Reversible(r) == r.k \in {"ell", "tri", "rect", "box"}
 
 -----------------------------------------------------------------------------
 (* area and volume integrals *)
@@ -79,19 +98,51 @@ IntRect(p, r) ==
   RSum(LAMBDA e : RMul(p[e], RMul(RMul(Int1(e[1], r.c[1], r.s[1]), Int1(e[2], r.c[2], r.s[2])), RPow(r.c[3], e[3]))),
        Supp(p))
 
-IntRegion(p, r) == CASE r.k = "ell"  -> VPi(IntEllipse(p, r))
-                     [] r.k = "rect" -> VRat(IntRect(p, r))
-                     [] r.k = "box"  -> VRat(PIntBox(p, r.c, r.s))
+\* Dirichlet's integrals over the standard simplex:
+\*   int_{u,v>=0, u+v<=1} u^i v^j = i! j! / (i+j+2)!      int_{u,v,w>=0, u+v+w<=1} u^i v^j w^k = i! j! k! / (i+j+k+3)!
+Dir2(i, j)    == Norm(Fact(i) * Fact(j), Fact(i + j + 2))
+Dir3(i, j, k) == Norm(Fact(i) * Fact(j) * Fact(k), Fact(i + j + k + 3))
+
+\* triangle (x, y) = (c1 + s1 u, c2 + s2 v): dA = s1 s2 du dv, signed with the orientation s3
+IntTri(p, r) ==
+  LET q == PForce(PShift(p, r.c)) IN
+  RMul(r.s[3], RSum(LAMBDA e : RMul(q[e], RMul(RMul(RPow(r.s[1], e[1] + 1), RPow(r.s[2], e[2] + 1)), Dir2(e[1], e[2]))),
+                    {e \in Supp(q) : e[3] = 0}))
+IntTet(p, r) ==
+  LET q == PForce(PShift(p, r.c)) IN
+  RSum(LAMBDA e : RMul(q[e], RMul(RMul(RMul(RPow(r.s[1], e[1] + 1), RPow(r.s[2], e[2] + 1)), RPow(r.s[3], e[3] + 1)),
+                                   Dir3(e[1], e[2], e[3]))), Supp(q))
+
+\* cylindrical shell: annulus moments (difference of two discs) times the integral along z; coefficient of pi
+IntShell(p, r) ==
+  RSum(LAMBDA e : RMul(p[e], RMul(RMul(EllMoment(e[1], e[2]),
+                                       RSub(RPow(r.s[1], e[1] + e[2] + 2), RPow(r.c[1], e[1] + e[2] + 2))),
+                                  Int1(e[3], r.c[2], r.s[2]))), Supp(p))
+
+\* ball of radius R: int x^i y^j z^k dV = R^(i+j+k+3) * BallMoment(i, j, k) * pi
+AllEven(i, j, k) == i % 2 = 0 /\ j % 2 = 0 /\ k % 2 = 0
+BallMoment(i, j, k) == IF ~AllEven(i, j, k) THEN RZero
+                       ELSE Norm(4 * DF(i - 1) * DF(j - 1) * DF(k - 1), DF(i + j + k + 3))
+IntBall(p, r) == RSum(LAMBDA e : RMul(p[e], RMul(RPow(r.s[1], TotDeg(e) + 3), BallMoment(e[1], e[2], e[3]))), Supp(p))
+
+IntRegion(p, r) == CASE r.k = "ell"   -> VPi(IntEllipse(p, r))
+                     [] r.k = "rect"  -> VRat(IntRect(p, r))
+                     [] r.k = "box"   -> VRat(PIntBox(p, r.c, r.s))
+                     [] r.k = "tri"   -> VRat(IntTri(p, r))
+                     [] r.k = "tet"   -> VRat(IntTet(p, r))
+                     [] r.k = "shell" -> VPi(IntShell(p, r))
+                     [] r.k = "ball"  -> VPi(IntBall(p, r))
 
 Div2(F) == PAdd(PDiff(F[1], 1), PDiff(F[2], 2))
 
 CircByStokes(F, r) == IntRegion(PForce(Curl(F)[3]), r)        \* r planar
 FluxByGreen(F, r)  == IntRegion(PForce(Div2(F)), r)           \* r planar
-FluxByGauss(F, r)  == IntRegion(PForce(Div(F)), r)            \* r a box
+FluxByGauss(F, r)  == IntRegion(PForce(Div(F)), r)            \* r a solid
 
-\* a planar problem: the field has no z component and does not depend on z, the region lies in z = 0
-Planar(F, r) == /\ r.k # "box" /\ r.c[3] = RZero /\ F[3] = PZero
-                /\ \A i \in 1..2 : \A e \in Supp(F[i]) : e[3] = 0
+PlanarKinds == {"ell", "rect", "tri"}
+\* a planar problem: a region in the plane z = 0 and a field without z component (its two components may
+\* depend on z: in the plane they are taken at z = 0, which is what the integrals above do)
+Planar(F, r) == r.k \in PlanarKinds /\ r.c[3] = RZero /\ F[3] = PZero
 
 Expected(fn, F, r) == CASE fn = "circ"  -> CircByStokes(F, r)
                         [] fn = "flux2" -> FluxByGreen(F, r)
@@ -141,6 +192,79 @@ BoxFaces(F, r) ==
   VRat(RAdd(RAdd(RSub(Face(F, r, 1, r.s[1]), Face(F, r, 1, r.c[1])), RSub(Face(F, r, 2, r.s[2]), Face(F, r, 2, r.c[2]))),
             RSub(Face(F, r, 3, r.s[3]), Face(F, r, 3, r.c[3]))))
 
+\* triangle: legs by one-dimensional integrals, hypotenuse (a(1-t), b t) by Euler's Beta integral
+\*   int_0^1 (1-t)^i t^j dt = i! j! / (i+j+1)!
+Beta(i, j) == Norm(Fact(i) * Fact(j), Fact(i + j + 1))
+Hyp(q, r) == RSum(LAMBDA e : RMul(q[e], RMul(RMul(RPow(r.s[1], e[1]), RPow(r.s[2], e[2])), Beta(e[1], e[2]))),
+                  {e \in Supp(q) : e[3] = 0})
+TriCirc(F, r) ==
+  LET G1 == PForce(PShift(F[1], r.c))  G2 == PForce(PShift(F[2], r.c))  a == r.s[1]  b == r.s[2] IN
+  VRat(RMul(r.s[3], RAdd(RAdd(EdgeX(G1, RZero, RZero, RZero, a), EdgeY(G2, RZero, RZero, b, RZero)),
+                         RAdd(RMul(RNeg(a), Hyp(G1, r)), RMul(b, Hyp(G2, r))))))
+TriFlux(F, r) ==
+  LET G1 == PForce(PShift(F[1], r.c))  G2 == PForce(PShift(F[2], r.c))  a == r.s[1]  b == r.s[2] IN
+  VRat(RMul(r.s[3], RAdd(RAdd(RNeg(EdgeX(G2, RZero, RZero, RZero, a)), EdgeY(G1, RZero, RZero, b, RZero)),
+                         RAdd(RMul(b, Hyp(G1, r)), RMul(a, Hyp(G2, r))))))
+
+\* tetrahedron: the slanted face (a u, b v, c (1-u-v)) has dS = (bc, ac, ab) du dv and
+\*   int_{u+v<=1} u^i v^j (1-u-v)^k du dv = i! j! k! / (i+j+k+2)!;   the three faces in the coordinate planes
+\*   through the corner have normals -e_x, -e_y, -e_z
+Dir2x(i, j, k) == Norm(Fact(i) * Fact(j) * Fact(k), Fact(i + j + k + 2))
+TetFaces(F, r) ==
+  LET G == [v \in 1..3 |-> PForce(PShift(F[v], r.c))]
+      a == r.s[1]  b == r.s[2]  c == r.s[3]
+      sc(e) == RMul(RMul(RPow(a, e[1]), RPow(b, e[2])), RPow(c, e[3]))
+      slant(v, w) == RMul(w, RSum(LAMBDA e : RMul(G[v][e], RMul(sc(e), Dir2x(e[1], e[2], e[3]))), Supp(G[v])))
+      fx == RSum(LAMBDA e : RMul(G[1][e], RMul(RMul(RPow(b, e[2] + 1), RPow(c, e[3] + 1)), Dir2(e[2], e[3]))),
+                 {e \in Supp(G[1]) : e[1] = 0})
+      fy == RSum(LAMBDA e : RMul(G[2][e], RMul(RMul(RPow(a, e[1] + 1), RPow(c, e[3] + 1)), Dir2(e[1], e[3]))),
+                 {e \in Supp(G[2]) : e[2] = 0})
+      fz == RSum(LAMBDA e : RMul(G[3][e], RMul(RMul(RPow(a, e[1] + 1), RPow(b, e[2] + 1)), Dir2(e[1], e[2]))),
+                 {e \in Supp(G[3]) : e[3] = 0})
+  IN VRat(RSub(RAdd(RAdd(slant(1, RMul(b, c)), slant(2, RMul(a, c))), slant(3, RMul(a, b))), RAdd(RAdd(fx, fy), fz)))
+
+\* cylindrical shell: lateral faces (R cos t, R sin t, z) with dS = (R cos t, R sin t, 0) dt dz by Wallis' table,
+\* top and bottom annuli by the moment table
+ShellFaces(F, r) ==
+  LET lat(rad) == RSum(LAMBDA e : RMul(RMul(F[1][e], Int1(e[3], r.c[2], r.s[2])), RMul(RPow(rad, e[1] + e[2] + 1), Wallis(e[1] + 1, e[2]))), Supp(F[1]))
+      lat2(rad) == RSum(LAMBDA e : RMul(RMul(F[2][e], Int1(e[3], r.c[2], r.s[2])), RMul(RPow(rad, e[1] + e[2] + 1), Wallis(e[1], e[2] + 1))), Supp(F[2]))
+      cap == RSum(LAMBDA e : RMul(RMul(F[3][e], RSub(RPow(r.s[2], e[3]), RPow(r.c[2], e[3]))),
+                                  RMul(EllMoment(e[1], e[2]), RSub(RPow(r.s[1], e[1] + e[2] + 2), RPow(r.c[1], e[1] + e[2] + 2)))), Supp(F[3]))
+  IN VPi(RAdd(RSub(RAdd(lat(r.s[1]), lat2(r.s[1])), RAdd(lat(r.c[1]), lat2(r.c[1]))), cap))
+
+\* sphere of radius R: int_{S^2} w^e dOmega = SphereMoment(e) * pi;  F . n dS = (F1 x + F2 y + F3 z) / R * R^2 dOmega
+SphereMoment(i, j, k) == IF ~AllEven(i, j, k) THEN RZero
+                         ELSE Norm(4 * DF(i - 1) * DF(j - 1) * DF(k - 1), DF(i + j + k + 1))
+BallSurface(F, r) ==
+  LET one(v) == RSum(LAMBDA e : RMul(F[v][e], RMul(RPow(r.s[1], TotDeg(e) + 2),
+                                     SphereMoment(e[1] + Unit(v)[1], e[2] + Unit(v)[2], e[3] + Unit(v)[3]))), Supp(F[v]))
+  IN VPi(RAdd(RAdd(one(1), one(2)), one(3)))
+
+-----------------------------------------------------------------------------
+(* fields given natively in cylindrical / spherical components, as Cartesian polynomial fields:              *)
+(*   e_r = (x, y, 0) / r, e_theta = (-y, x, 0) / r, e_z  (cylindrical);   e_r = (x, y, z) / r  (spherical)    *)
+(* n = [sys, comp, a, c] is the field  r^a z^c e_comp  (sys "cyl")  or  r^a e_r  (sys "sph", comp 1, c 0)    *)
+RhoPow(m) == [e \in Exps |-> IF e[3] = 0 /\ AllEven(e[1], e[2], 0) /\ e[1] + e[2] = 2 * m
+                             THEN R(Binom(m, e[1] \div 2)) ELSE RZero]                      \* (x^2 + y^2)^m
+RadPow(m) == [e \in Exps |-> IF AllEven(e[1], e[2], e[3]) /\ TotDeg(e) = 2 * m
+                             THEN R(Fact(m) \div (Fact(e[1] \div 2) * Fact(e[2] \div 2) * Fact(e[3] \div 2)))
+                             ELSE RZero]                                                   \* (x^2 + y^2 + z^2)^m
+NativeOK(n) == IF n.sys = "sph" THEN n.comp = 1 /\ n.a % 2 = 1 /\ n.c = 0
+               ELSE (n.comp \in {1, 2} /\ n.a % 2 = 1) \/ (n.comp = 3 /\ n.a % 2 = 0)
+NativeField(n) ==
+  IF n.sys = "sph"
+  THEN LET P == RadPow((n.a - 1) \div 2) IN <<PMulMono(P, <<1, 0, 0>>), PMulMono(P, <<0, 1, 0>>), PMulMono(P, <<0, 0, 1>>)>>
+  ELSE LET P == PMulMono(RhoPow(IF n.comp = 3 THEN n.a \div 2 ELSE (n.a - 1) \div 2), <<0, 0, n.c>>) IN
+       CASE n.comp = 1 -> <<PMulMono(P, <<1, 0, 0>>), PMulMono(P, <<0, 1, 0>>), PZero>>
+         [] n.comp = 2 -> <<PNeg(PMulMono(P, <<0, 1, 0>>)), PMulMono(P, <<1, 0, 0>>), PZero>>
+         [] n.comp = 3 -> <<PZero, PZero, P>>
+NativeFields(k) ==
+  IF k = "ball" THEN {[sys |-> "sph", comp |-> 1, a |-> a, c |-> 0] : a \in {1, 3}}
+  ELSE {[sys |-> "cyl", comp |-> 1, a |-> a, c |-> c] : a \in {1, 3}, c \in 0..2}
+       \cup {[sys |-> "cyl", comp |-> 2, a |-> 1, c |-> c] : c \in 0..1}
+       \cup {[sys |-> "cyl", comp |-> 3, a |-> a, c |-> c] : a \in {0, 2}, c \in 0..3}
+TermSet(p) == {<<e, p[e]>> : e \in Supp(p)}
+
 -----------------------------------------------------------------------------
 (* the state space: vector fields of FieldOps x regions *)
 \* (starts from the zero field so that TLC's workers share the basis fields)
@@ -154,19 +278,35 @@ INext == /\ Len(terms) < MaxTerms
 
 Stokes == CASE reg.k = "ell"  -> EllCirc(fld, reg, ROne) = CircByStokes(fld, reg)
             [] reg.k = "rect" -> RectCirc(fld, reg) = CircByStokes(fld, reg)
+            [] reg.k = "tri"  -> TriCirc(fld, reg) = CircByStokes(fld, reg)
             [] OTHER -> TRUE
 Green  == CASE reg.k = "ell"  -> EllFlux(fld, reg, ROne) = FluxByGreen(fld, reg)
             [] reg.k = "rect" -> RectFlux(fld, reg) = FluxByGreen(fld, reg)
+            [] reg.k = "tri"  -> TriFlux(fld, reg) = FluxByGreen(fld, reg)
             [] OTHER -> TRUE
-Gauss  == reg.k = "box" => BoxFaces(fld, reg) = FluxByGauss(fld, reg)
+Gauss  == CASE reg.k = "box"   -> BoxFaces(fld, reg) = FluxByGauss(fld, reg)
+            [] reg.k = "tet"   -> TetFaces(fld, reg) = FluxByGauss(fld, reg)
+            [] reg.k = "shell" -> ShellFaces(fld, reg) = FluxByGauss(fld, reg)
+            [] reg.k = "ball"  -> BallSurface(fld, reg) = FluxByGauss(fld, reg)
+            [] OTHER -> TRUE
+\* the same for the fields given natively in curvilinear components (checked once per shell / ball)
+GaussNative ==
+  (terms = <<>> /\ reg.k \in {"shell", "ball"}) =>
+     \A n \in NativeFields(reg.k) :
+        /\ NativeOK(n)
+        /\ (IF reg.k = "shell" THEN ShellFaces(NativeField(n), reg) ELSE BallSurface(NativeField(n), reg))
+             = FluxByGauss(NativeField(n), reg)
 
-Fns(r) == IF r.k = "box" THEN {"flux3"} ELSE {"circ", "flux2"}
+Fns(r) == IF r.k \in PlanarKinds THEN {"circ", "flux2"} ELSE {"flux3"}
 ReverseNegates ==
+  Reversible(reg) =>
   /\ \A fn \in Fns(reg) : Expected(fn, fld, Rev(reg)) = ValNeg(Expected(fn, fld, reg))
   /\ CASE reg.k = "ell"  -> /\ EllCirc(fld, Rev(reg), ROne) = ValNeg(EllCirc(fld, reg, ROne))
                             /\ EllFlux(fld, Rev(reg), ROne) = ValNeg(EllFlux(fld, reg, ROne))
        [] reg.k = "rect" -> /\ RectCirc(fld, Rev(reg)) = ValNeg(RectCirc(fld, reg))
                             /\ RectFlux(fld, Rev(reg)) = ValNeg(RectFlux(fld, reg))
+       [] reg.k = "tri"  -> /\ TriCirc(fld, Rev(reg)) = ValNeg(TriCirc(fld, reg))
+                            /\ TriFlux(fld, Rev(reg)) = ValNeg(TriFlux(fld, reg))
        [] OTHER -> BoxFaces(fld, Rev(reg)) = ValNeg(BoxFaces(fld, reg))
 SpeedCancels ==
   reg.k = "ell" => \A k \in {R(2), R(3), <<1, 2>>} :
@@ -180,9 +320,16 @@ ITypeOK == /\ TypeOK /\ reg \in Regions
 
 -----------------------------------------------------------------------------
 (* emission (spec -> code): expected values of every function for the field and the region *)
+INativeEmit ==
+  (terms = <<>> /\ reg.k \in {"shell", "ball"}) =>
+     \A n \in NativeFields(reg.k) :
+        PrintT(ToJson([native |-> n, reg |-> reg,
+                       cart |-> <<TermSet(NativeField(n)[1]), TermSet(NativeField(n)[2]), TermSet(NativeField(n)[3])>>,
+                       flux3 |-> Expected("flux3", NativeField(n), reg)]))
+
 IEmit == Emitted =>
   PrintT(ToJson(
-    IF reg.k = "box"
+    IF reg.k \notin PlanarKinds
     THEN [terms |-> terms, reg |-> reg,
           flux3 |-> Expected("flux3", fld, reg), flux3rev |-> Expected("flux3", fld, Rev(reg))]
     ELSE [terms |-> terms, reg |-> reg, planar |-> IF Planar(fld, reg) THEN 1 ELSE 0,
